@@ -204,9 +204,13 @@ def run(spec, ctx):
                 ast = ["q", "$", [["child", [["filter", expr], ["wild"]]]]]
             else:
                 ast = ["q", "$", [["child", [["wild"]]], ["child", [["filter", expr]]]]]
-            from rt import ref_jsonpath as ref
+            from rt import ref_jsonpath as ref, ref_regex
 
-            model = ref.eval_query(ast, doc)
+            try:
+                model = ref.eval_query(ast, doc)
+            except ref_regex.Unsupported:
+                ctx.count("regex_outside_common_dialect_skipped")
+                continue
             nch = len(doc) if k < 0.6 else None
             nontrivial = bool(model) and (nch is None or len(model) < nch)
             seen = set()
